@@ -12,7 +12,7 @@ use crate::engine::{gen_sub, guard, Obs, PropertyDef, Sub, Tier, Verdict};
 use crate::model::idx16;
 
 pub const MIN_NAMES: &[&str] = &[
-    "a", "b", "ab", "a1", "$", "_x", "é", "aé", "λ", "变x", "𝒳", "x𝒳", "a\u{200c}b", "fn", "f", "abc", "e\u{301}t", "n\u{663}", "x\u{203f}y", "x",
+    "a", "b", "ab", "a1", "$", "_x", "é", "aé", "λ", "变x", "𝒳", "x𝒳", "a\u{200c}b", "fn", "f", "abc", "e\u{301}t", "n\u{663}", "x\u{203f}y", "x", "let", "static", "yield", "await", "of",
 ];
 pub const ORIG_NAMES: &[&str] = &["origA", "origB", "original_fn", "Ω", "", "render"];
 pub const STRINGS: &[&str] = &["\"😀\"", "'𝒳 é'", "\"function a\"", "`é😀`", "\"\""];
